@@ -84,13 +84,15 @@ RealsFor(c, k) ==
         e0 == SelectSeq(EndRealSeq, LAMBDA r : EndRealOk(r, c[1]))
         e1 == SelectSeq(EndRealSeq, LAMBDA r : EndRealOk(r, c[2]))
         bs == SelectSeq(BumpRealSeq(c[3]), LAMBDA r : BumpRealOk(r, c[1], c[2], c[3]))
-    IN  [t0 |-> Pick(e0, i), t1 |-> Pick(e1, i \div 3), bump |-> Pick(bs, i \div 2)]
+    IN  [t0 |-> Pick(e0, i), t1 |-> Pick(e1, i \div 3), bump |-> Pick(bs, i \div 2),
+         via |-> IF HasBPart(c[3]) THEN "drange" ELSE Pick(<<"drange", "drange", "cal_hol", "drange", "cal", "drange">>, i \div 5)]
 \* every realisation of one argument, the others plain; and all three strange at once
 OneOff(c) ==
     LET p == PlainReals(c[3]) IN
     {[p EXCEPT !.t0 = r] : r \in {r \in EndReals : EndRealOk(r, c[1])}}
     \cup {[p EXCEPT !.t1 = r] : r \in {r \in EndReals : EndRealOk(r, c[2])}}
     \cup {[p EXCEPT !.bump = r] : r \in {r \in IntReals \cup TdReals \cup StrReals : BumpRealOk(r, c[1], c[2], c[3])}}
+    \cup {[p EXCEPT !.via = v] : v \in {v \in Vias : v = "drange" \/ ~HasBPart(c[3])}}
     \cup {RealsFor(c, k) : k \in 0..3}
 BumpVariants(c) == {[PlainReals(c[3]) EXCEPT !.bump = r] : r \in {r \in IntReals \cup TdReals \cup StrReals : BumpRealOk(r, c[1], c[2], c[3])}}
 
